@@ -93,6 +93,10 @@ class Engine(object):
         self.decided = {}
         self.model = None
         self.pc_assump = []
+        # split bits apply to the first branching decisions of the very first run; afterwards the queued prefixes
+        # already contain them
+        self.root_left = list(self.root_prefix) if (self.root_prefix and not prefix) else []
+        self.root_used = 0
         # atoms created while executing a path are re-created deterministically
         ST.n_fresh = 0
 
@@ -150,11 +154,6 @@ class Engine(object):
         self.stats.decisions += 1
         if idx < len(self.prefix):
             val = self.prefix[idx]
-            if self.root_prefix is not None and idx == len(self.root_prefix) - 1:
-                # externally fixed prefix: make sure it is feasible before going on
-                c = f if val else z3.Not(f)
-                if self._check(*(self.pc_assump + [c])) == z3.unsat:
-                    raise PathAbort()
         else:
             model_t = model_f = None
             if self.model is not None:
@@ -181,16 +180,23 @@ class Engine(object):
                     model_f = self.model
                 if r == z3.unknown:
                     self.stats.branch_unknown += 1
-            self.model = model_t if can_t else model_f
             if can_t and can_f:
-                val = True
-                self.pending.append(self.trace + [False])
+                if self.root_left:
+                    # externally fixed split bit for this (genuinely branching) decision: no alternative queued
+                    val = self.root_left.pop(0)
+                    self.root_used += 1
+                else:
+                    val = True
+                    self.pending.append(self.trace + [False])
+                self.model = model_t if val else model_f
             elif can_t:
                 val = True
                 self.stats.forced += 1
+                self.model = model_t
             elif can_f:
                 val = False
                 self.stats.forced += 1
+                self.model = model_f
             else:
                 raise PathAbort()
         self.trace.append(val)
@@ -207,7 +213,7 @@ class Engine(object):
     # -- exploration --------------------------------------------------------------
     def explore(self, fn, on_path):
         """Run fn() once per feasible path; on_path(result_or_exception, is_exc) per completed path."""
-        self.pending = [list(self.root_prefix)] if self.root_prefix else [[]]
+        self.pending = [[]]
         while self.pending:
             if self.stats.paths + self.stats.aborted >= self.max_paths:
                 raise Budget('path budget %d exhausted' % self.max_paths)
@@ -225,9 +231,9 @@ class Engine(object):
                 except Exception as e:   # library raised on this path
                     res = e
                     exc = True
-                if self.root_prefix is not None and len(self.trace) < len(self.root_prefix):
-                    # a path shorter than the split depth is owned by the all-True padding only
-                    if not all(self.root_prefix[len(self.trace):]) or self._check() == z3.unsat:
+                if self.root_left:
+                    # fewer branching decisions than split bits: the path is owned by the all-True remainder only
+                    if not all(self.root_left):
                         self.stats.aborted += 1
                         continue
                 self.stats.paths += 1
